@@ -276,8 +276,8 @@ Definition eval_binop (op : binop) (a b : Value) : option Value :=
 Definition eval_builtin (f : ident) (args : list Value) : option (option Value) :=
   let bin g := match args with [a; b] => Some (int_op g a b) | _ => Some None end in
   if f =s? "add" then bin (fun x y => V_Option (option_map V_Int (i64_checked (x + y)%Z)))
-  else if f =s? "sub" then bin (fun x y => V_Option (option_map V_Int (i64_checked (x - y)%Z)))
   else if f =s? "saturating_add" then bin (fun x y => V_Int (i64_saturate (x + y)%Z))
+  else if f =s? "sub" then bin (fun x y => V_Option (option_map V_Int (i64_checked (x - y)%Z)))
   else if f =s? "saturating_sub" then bin (fun x y => V_Int (i64_saturate (x - y)%Z))
   else None.
 
@@ -604,8 +604,10 @@ Section Eval.
       end
     | SCall f args =>
       ' vs, w <- eval_exprs en w args ;;
-      ' _, w <- call_fin f vs w ;;
-      OVal en w
+      match eval_builtin f vs with
+      | Some _ => OWrong          (* the builtins are not finish functions *)
+      | None => ' _, w <- call_fin f vs w ;; OVal en w
+      end
     | SRecall name args =>
       (* the recall block runs with [this] and [envelope], in recall context, and never comes back *)
       ' vs, w <- eval_exprs en w args ;;
